@@ -21,7 +21,7 @@ META = {
     "id": "C16",
     "technique": "Coq proof (buzzer device model: induction over call sequences and loop counters; melody tables: reflection over translator-generated tables against a pinned score) + extracted-model correspondence with the emitted C++ executed under the mock Arduino core + property oracle on the firmware trace",
     "level_text": "Theorems C16_* (coq/Props/C16.v) hold for all call sequences and all rational arguments of a Gallina model written line by line from the five buzzer emitter branches; the emitter's melody table and the parser's name set are regenerated from the source on every run and proved equal to a pinned score; the model is run against the real parser+emitter output (compiled, executed on the mock core) on exhaustive boundary grids, exhaustive pairs of boundary calls, seeded random sequences with literal and run-time arguments, bodies repeated over passes of loop() and of a for loop, two interleaved buzzers, and arguments computed from the buzzer's own getters; the thorough tier re-runs a sample under ASan+UBSan.",
-    "level_note": "Trusted: Coq kernel, translator harness/gen/melodies.py, extraction, OCaml driver, mock Arduino core (tone/noTone/delay/Serial/String(float)), g++. C++ float is modelled as exact rational; cases on which float32 and exact arithmetic round an integer output differently are not generated (measured). Four known findings delimit the guard: beep(times<=0) leaves a running tone, negative run-time durations wrap, sweep(steps<=0) plays one tone, frequencies in (0, 0.5) become tone(pin, 0).",
+    "level_note": "Trusted: Coq kernel, translator harness/gen/melodies.py, extraction, OCaml driver, mock Arduino core (tone/noTone/delay/Serial/String(float)), g++. C++ float is modelled as exact rational; cases on which float32 and exact arithmetic round an integer output differently are not generated (measured). Five known findings delimit the guard: beep(times<=0) leaves a running tone, negative run-time durations wrap, sweep(steps<=0) plays one tone, frequencies in (0, 0.5) become tone(pin, 0), sweep durations >= 2^24 ms are rounded up by the float conversion.",
     "design_ref": "DESIGN.md section 4 C16",
 }
 
@@ -114,6 +114,8 @@ def numeric_sites(case, spec, N, tones=None):
         elif k == "sweep":
             s, e = clamp(N(qfreq(c["s"]))), clamp(N(qfreq(c["e"])))
             total = math.floor(qdur(c["d"]))
+            if total >= 0:
+                total = int(f32(total))      # static_cast<float>(__redu_total): DBuzzer.f32z in the model
             n = max(1, trunc(qint(c["steps"] or [DEF["steps"], False])))
             sd = N(total) / N(n)
             out.append(sd > zero)
@@ -562,7 +564,9 @@ def oracle(ctx, case, segs, spec, strict_steps=False):
                         bad("sweep-start", "sweep does not start on the start frequency", rnd(s), tones, j)
             elif strict_steps and len(tones) != max(0, steps):
                 bad("sweep-count", "sweep does not play `steps` tones", max(0, steps), tones, j)
-            if sum(delays) > max(total, 0):
+            # durations of 2^24 ms or more: F-C16-sweep-float-duration-overshoot (generated, compared with the model,
+            # not judged here)
+            if sum(delays) > max(total, 0) and (strict_steps or total < 2 ** 24):
                 bad("sweep-duration", "sweep delays exceed the given duration", f"<= {total}", delays, j)
         if k == "melody":
             t0, notes = spec[c["name"].lower()]
@@ -707,7 +711,8 @@ PAIR_ALPHABET = [
 def random_call(rng):
     k = rng.choice(["play", "play", "stop", "beep", "beep", "sweep", "sweep", "melody"])
     fq = lambda: rng.choice(FREQS + [rng.randrange(-40, 8000) / 8, rng.randrange(1, 3000), 261.63, 783.99])
-    du = lambda: rng.choice(DURS + [rng.randrange(0, 400) / 2, 7, 100])
+    du = lambda: rng.choice(DURS + [rng.randrange(0, 400) / 2, 7, 100] + ([16777215, 9999999, 12345678.5, 16777217, 16777219, 16777221, 33554435, 33554434, 50000001, 4294967295]
+                                 if rng.random() < 0.15 else []))
     if k == "play":
         c = play(fq(), du() if rng.random() < 0.6 else None)
     elif k == "stop":
@@ -724,7 +729,8 @@ def random_call(rng):
     out = dict(c)
     for key in ("f", "d", "on", "off", "times", "s", "e", "steps", "tempo"):
         if out.get(key) is not None:
-            out[key] = [out[key][0], rng.random() < 0.5]
+            # (a run-time value travels through analogRead, an int: keep it far from 2^31)
+            out[key] = [out[key][0], rng.random() < 0.5 and abs(out[key][0]) < 2 ** 31 - 2 * OFF]
     return out
 
 
@@ -767,6 +773,13 @@ def build_cases(ctx):
             cases[-1].update({"func_passes": passes, "func_early": False, "body": body})
         else:
             cases[-1].update({"passes": passes, "body": body})         # `while True:` -> loop(), P passes
+    # (7) sweep durations around and above 2^24 ms: the unsigned long -> float conversion (DBuzzer.f32z)
+    big = [16777215, 16777216, 16777217, 16777218, 16777219, 16777221, 33554433, 33554435, 33554437, 100000001,
+           2147000001, 4294967295]
+    for i, total in enumerate(big):
+        for n in (1, 2, 3):
+            rt = (i + n + ctx.seed) % 2 == 1 and total < 2 ** 31 - 2 * OFF
+            add("bigdur", [route(sweep(440, 880, total, n), rt), route(sweep(-5, 440.5, total, None), False)], None, style=i + n)
     # (6) state feedback: frequency-type arguments written as expressions over the buzzer's own getters
     #     (evaluated by the firmware when the call is made); values resolved by resolve_feedback
     seeds = [play(440), play(440.5), play(220.25), play(65535), play(1), play(440, 50), beep(880, 1, 1, 2),
@@ -1143,8 +1156,8 @@ def run(ctx: C.Ctx):
                          "cases_clean": n_ok, "cases_rerun_under_sanitizers": n_san, "outside_guard_not_generated": n_out_guard, "feedback_cases_not_exact_dropped": n_feedback_dropped, "tone_zero_cases_compared_not_judged": n_tone_zero,
                          "float32_vs_exact_dropped": n_inexact, "melody_name_candidates": n_names, "melody_names_accepted": n_acc},
         "exhaustive": False,
-        "guard": "the tone(pin, f >= 1) clause is judged only on cases without a sounded frequency in (0, 0.5) - arguments, default_frequency, interpolated sweep frequencies (F-C16-subhalf-frequency-tone-zero: rounded to tone(pin, 0); the guard is half_guard_static of the Coq development, evaluated on the inputs: default and arguments <= 0 or >= 0.5, sweeps with both ends <= 0 or both >= 0.5; cases outside it are still generated and compared with the model); durations/on_ms/off_ms >= 0 (negative: F-C16-negative-runtime-duration, float->unsigned UB); sweep tone count / first / last judged only for steps >= 1 (F-C16-sweep-steps-clamped; the calls are still generated and compared with the model); no beep with trunc(times) < 1 while a tone is left running (F-C16-beep-zero-keeps-tone); integer outputs on which float32 and exact-rational arithmetic differ are not generated (count in distribution.float32_vs_exact_dropped)",
-        "unmodelled": ["C++ float rounding (modelled as exact rationals; measured by the float32 filter and the correspondence)",
+        "guard": "the tone(pin, f >= 1) clause is judged only on cases without a sounded frequency in (0, 0.5) - arguments, default_frequency, interpolated sweep frequencies (F-C16-subhalf-frequency-tone-zero: rounded to tone(pin, 0); the guard is half_guard_static of the Coq development, evaluated on the inputs: default and arguments <= 0 or >= 0.5, sweeps with both ends <= 0 or both >= 0.5; cases outside it are still generated and compared with the model); durations/on_ms/off_ms >= 0 (negative: F-C16-negative-runtime-duration, float->unsigned UB); the sweep duration clause is judged only for durations below 2^24 ms (F-C16-sweep-float-duration-overshoot: the duration is rounded to a float first; larger durations are still generated and compared with the model, which contains that rounding); sweep tone count / first / last judged only for steps >= 1 (F-C16-sweep-steps-clamped; the calls are still generated and compared with the model); no beep with trunc(times) < 1 while a tone is left running (F-C16-beep-zero-keeps-tone); integer outputs on which float32 and exact-rational arithmetic differ are not generated (count in distribution.float32_vs_exact_dropped)",
+        "unmodelled": ["C++ float rounding (modelled as exact rationals, except the unsigned long -> float conversion of the sweep duration, DBuzzer.f32z; measured by the float32 filter and the correspondence)",
                        "unsigned int / int / unsigned long overflow (tone frequency >= 2^16 on AVR, counts >= 2^15)",
                        "static_cast<unsigned long> of a negative value (wrap-around for int expressions, undefined for float expressions; [neg] oracle in the model)",
                        "non-ASCII melody names (str.lower of U+212A)", "IEEE specials", "several buzzers sharing one pin",
